@@ -187,7 +187,7 @@ impl<'c, Q: Queue> Interp<'c, Q> {
             2 => !pq && matches!(g, Group::Order | Group::Panic),
             3 => matches!(g, Group::Content | Group::Ret | Group::Panic),
             4 => matches!(g, Group::Panic | Group::Tables),
-            6 => g == Group::Sorted || (g == Group::Panic && matches!(op, "sorted" | "sorted_iter" | "adaptor_sorted")),
+            6 => g == Group::Sorted || (matches!(g, Group::Panic | Group::IterStd) && matches!(op, "sorted" | "sorted_iter" | "adaptor_sorted")),
             7 => {
                 g == Group::Hint
                     || (matches!(op, "extend" | "append" | "from_vec" | "from_iter" | "convert" | "ctor")
@@ -412,6 +412,21 @@ impl<'c, Q: Queue> Interp<'c, Q> {
                 }
             }),
         ));
+        // grow the queue by more than half its size (an element in the last positions is relocated by
+        // the next pops, which would silently repair an anomaly at the bottom)
+        for below in [true, false] {
+            let cnt = (n / 2 + 8) as u32;
+            tries.push((
+                format!("{} pushes of new elements {} everything stored", cnt, if below { "below" } else { "above" }),
+                Box::new(move |q: &mut Q, m: &mut Model| {
+                    for j in 0..cnt {
+                        let np = if below { lo.saturating_sub(1 + (j % 7) as i64) } else { hi.saturating_add(1 + (j % 7) as i64) };
+                        q.push(Key::new(fresh + 100 + j, 0), Prio::new(np));
+                        m.set(fresh + 100 + j, 0, np);
+                    }
+                }),
+            ));
+        }
         for (i, e) in elems.iter().enumerate() {
             if i % stride != 0 {
                 continue;
